@@ -54,5 +54,10 @@ Inputs ==
   \cup {[ty |-> "()", node |-> [k |-> "unit"]]}
   \cup {[ty |-> t, json |-> j] : t \in ValueTypes,
           j \in {JNull, JTrue, JIntS("1"), JIntS("18446744073709551615"), JIntS("-9223372036854775808"), JNum(3, 2), JStr(<<233>>), JArr(<<>>),
-                 JArr(<<JIntS("1"), JStr(<<97>>), JNull>>), JObj(<<>>), MkObj(<<JMem(<<98>>, JIntS("2")), JMem(<<97>>, JArr(<<JNum(1, 2)>>))>>)}}
+                 JArr(<<JIntS("1"), JStr(<<97>>), JNull>>), JObj(<<>>), MkObj(<<JMem(<<98>>, JIntS("2")), JMem(<<97>>, JArr(<<JNum(1, 2)>>))>>),
+                 \* neighbours that are different JSON numbers with the same (or nearly the same) double: each keeps its own spelling
+                 JArr(<<JIntS("1"), JNum(1, 1)>>), JArr(<<JNum(1, 1), JIntS("1"), JNum(1, 1)>>), JArr(<<JIntS("9007199254740992"), JIntS("9007199254740993")>>),
+                 JArr(<<JNum(0, 1), JIntS("0")>>), JArr(<<JArr(<<JIntS("1")>>), JArr(<<JNum(1, 1)>>)>>), JArr(<<JStr(<<49>>), JIntS("1"), JStr(<<49>>)>>),
+                 MkObj(<<JMem(<<97>>, JArr(<<JIntS("2"), JNum(2, 1), JIntS("2")>>)), JMem(<<98>>, JArr(<<JIntS("18446744073709551615"), JIntS("18446744073709551614")>>))>>),
+                 JArr(<<JTrue, JTrue, JNull, JNull, JStr(<<>>), JStr(<<>>)>>)}}
 =============================================================================
